@@ -112,7 +112,9 @@ def one_connect(sess, cfg, maxdata, strays, stats, rng, real_keys=None):
         def verify(token, sig):
             return accept is not None and real_keys[accept]._verify(token, sig)
     delay = rng.choice([0.0, 0.5, 3.0])
-    auth_timeout = rng.choice([5.0, 10.0, 0.7]) if oc != "pubkey" else rng.choice([5.0, 10.0])
+    auth_timeout = rng.choice([5.0, 10.0, 0.7]) if oc != "pubkey" else rng.choice([5.0, 10.0, None, 0])
+    if auth_timeout in (None, 0):
+        delay = 0.0 if auth_timeout == 0 else delay        # 0 = do not wait (the answer is already there); None = wait as long as it takes
     sim.auth = simdev.AuthPlan(require=(oc != "noauth"), verify=verify, accept_pubkey=(oc == "pubkey"), pubkey_delay=delay if oc == "pubkey" else 0.0,
                                bad_challenge_at=cfg["bad"], strays=STRAYS[strays], challenge_arg0=rng.choice([0, 2, 3, 7]), rechallenge_after_pubkey=cfg.get("rechal", 0))
     sim.maxdata = maxdata
@@ -129,11 +131,32 @@ def one_connect(sess, cfg, maxdata, strays, stats, rng, real_keys=None):
     kw = {"rsa_keys": list(keys) if (nkeys or rng.random() < 0.5) else None, "auth_timeout_s": auth_timeout, "transport_timeout_s": rng.choice([None, 1.0, 2.0]), "read_timeout_s": 2.0}
     if cb is not None:
         kw["auth_callback"] = cb
+    tfault = cfg.get("tfault")
+    if tfault:
+        # the transport itself fails while connect() closes / re-opens it: connect() must raise and leave the device unavailable
+        from vlib import transports as _tr
+        want_kind = "close" if tfault == "close" else "connect"
+
+        def faults(idx, call_kind, core, _done=[False]):
+            if not _done[0] and call_kind == want_kind:
+                _done[0] = True
+                return _tr.Fault("oserror")
+            return None
+        sess.core.faults = faults
     nlog = len(sim.host_log)
     nauth = len(sim.auth_log)
     nreads = len(sess.core.read_timeouts)
     out = sess.call("connect", **kw)
+    sess.core.faults = None
     stats["connects"] += 1
+    if tfault:
+        stats["transport_faults_in_connect"] += 1
+        v = []
+        if out.ok:
+            v.append({"mechanism": "result", "detail": "connect() returned %r although the transport's %s() raised" % (out.value, tfault)})
+        if sess.dev.available is not False:
+            v.append({"mechanism": "available-after-failure", "detail": "connect() raised %s (transport %s() failed) but available=%r" % (out.brief(60), tfault, sess.dev.available)})
+        return v, out, ("exc", "OSError")
     pkts = [p for (_, p) in sim.host_log[nlog:]]
     events = [e for e in sim.auth_log[nauth:]]
     # ---------------------------------------------------------------- the model of the expected host behaviour
@@ -170,7 +193,7 @@ def one_connect(sess, cfg, maxdata, strays, stats, rng, real_keys=None):
                     pub = pub.encode()
                 exp.append(("AUTH", wire.AUTH_RSAPUBLICKEY, 0, bytes(pub) + b"\0"))
                 stats["pubkey_offers"] += 1
-                if oc == "pubkey" and delay <= auth_timeout:
+                if oc == "pubkey" and (auth_timeout is None or delay <= auth_timeout):
                     result = ("ret", True)
                 else:
                     result = ("timeout", None)
@@ -274,7 +297,7 @@ def make_real_keys(n):
 
 def run_case(case):
     rng = gen.rng_for("C05", case["seed"])
-    stats = {"connects": 0, "signatures_checked": 0, "pubkey_offers": 0, "auth_timeout_reads": 0, "second_connects": 0, "pushes_after_connect": 0, "real_rsa_cases": 0, "rechallenges_after_pubkey": 0}
+    stats = {"connects": 0, "signatures_checked": 0, "pubkey_offers": 0, "auth_timeout_reads": 0, "second_connects": 0, "pushes_after_connect": 0, "real_rsa_cases": 0, "rechallenges_after_pubkey": 0, "transport_faults_in_connect": 0}
     sim = simdev.SimDevice(rng=gen.rng_for("C05sim", case["seed"]), maxdata=case["maxdata"], remote_ids="random")
     bkind = rng.choice(["bytes", "bytes", "str", "bytearray", "none"])
     banner = {"bytes": b"verif", "str": "verif-\u00e9", "bytearray": bytearray(b"verif-ba"), "none": None}[bkind]
@@ -301,7 +324,10 @@ def run_case(case):
                 viol.append({"mechanism": "maxdata", "detail": "device maxdata %d, largest WRTE of a %d-byte push was %d" % (case["maxdata"], size, mw)})
         if case.get("second"):
             md2 = rng.choice(MAXDATAS)
-            v, out, result = one_connect(sess, case["second"], md2, rng.randrange(len(STRAYS)), stats, rng)
+            second = dict(case["second"])
+            if rng.random() < 0.25:
+                second["tfault"] = rng.choice(["close", "connect"])
+            v, out, result = one_connect(sess, second, md2, rng.randrange(len(STRAYS)), stats, rng)
             stats["second_connects"] += 1
             for x in v:
                 x["detail"] = "second connect on the same object: " + x["detail"]
